@@ -104,7 +104,18 @@ def tokens(params):
         return lambda w: c.fullmatch(w) is not None
 
     incl("_msg_seq_num", P._msg_seq_num_re, R.seq_number, "not_a_seq_number", py_full(r"[0-9]+|\*"))
-    incl("_msg_set_pair", P._msg_set_pair_re, Z.concat(R.seq_range, z3.Option(Z.lit("\n"))) if False else R.seq_range, "not_a_seq_range", py_full(r"([0-9]+|\*):([0-9]+|\*)"))
+    incl("_msg_set_pair", P._msg_set_pair_re, R.seq_range, "not_a_seq_range", py_full(r"([0-9]+|\*):([0-9]+|\*)"))
+    # _msg_set_pair is used as a *validator* of one comma-separated element via .search(): the language of
+    # "search succeeds" (anchors honoured), restricted to the characters _msg_set lets through, must be a range
+    n += 1
+    elem = z3.Star(Z.charset(R.DIGIT | set(map(ord, ":*"))))
+    w = Z.diff_witness(z3.Intersect(Z.search_language(P._msg_set_pair_re), elem), R.seq_range, st)
+    samples.append({"token": "_msg_set_pair", "check": "search() validates only ranges", "witness": w})
+    if w is not None and viol is None:
+        if P._msg_set_pair_re.search(w) is not None and not py_full(r"([0-9]+|\*):([0-9]+|\*)")(w):
+            viol = {"verdict": "violation", "reason": "C08/token/_msg_set_pair/search_accepts_non_range", "witness": {"token": "_msg_set_pair", "pattern": P._msg_set_pair_re.pattern, "word": w, "reason": "C08/token/_msg_set_pair/search_accepts_non_range", "search": True}}
+        elif viol is None and P._msg_set_pair_re.search(w) is None:
+            viol = {"verdict": "harness_error", "error": f"search-language translation disagrees with re on {w!r}"}
     incl("_quoted", P._quoted_re, R.quoted_relaxed, "not_a_quoted_string", py_full(r'"([^\r\n"\\]|\\["\\])*"'))
     incl("_lit_ref", P._lit_ref_re, R.literal_prefix, "not_a_literal_prefix", py_full(r"\{[0-9]+\+?\}\r\n"))
     mon = "(?i:jan|feb|mar|apr|may|jun|jul|aug|sep|oct|nov|dec)"
@@ -130,7 +141,7 @@ def tokens_replay(params, wit):
     import asimap.parse as P
 
     cre = getattr(P, wit["token"] + "_re")
-    ok = cre.fullmatch(wit["word"]) is not None
+    ok = (cre.search(wit["word"]) if wit.get("search") else cre.fullmatch(wit["word"])) is not None
     return {"held": not ok, "reason": wit.get("reason") or f"C08/token/{wit['token']}", "ctx": {"word": wit["word"], "pattern": cre.pattern}}
 
 
@@ -336,7 +347,8 @@ def _literal_count(k, plen, plus, a):
         pass
 
 
-SETFORMS = ["{a}", "{a}:{b}", "*", "{a}:*", "*:{b}", "{a},{b}", "{a}:{b},{c}", "{a},*,{c}:{b}"]
+SETFORMS = ["{a}", "{a}:{b}", "*", "{a}:*", "*:{b}", "{a},{b}", "{a}:{b},{c}", "{a},*,{c}:{b}", "{a}:{b}:{c}", "{a}:{b}:", "{a}:*:{c}", "{a}:{b}*", ":{a}", "{a},,{b}", "{a}:", "{a}::{b}"]
+NVALID_SETFORMS = 8
 
 
 def msg_set(form: int, a: int, b: int, c: int, uid: bool) -> bool:
@@ -355,6 +367,10 @@ def _msg_set(form, a, b, c, uid):
     text = "t1 " + ("UID " if uid else "") + "FETCH " + settext + " FLAGS"
     cmd, st = _parse(text)
     reached()
+    if form >= NVALID_SETFORMS:
+        # no RFC reading exists: accepting it means some of its characters were silently dropped
+        check(st != "ok", "C08/msg_set/malformed_set_accepted", text=text, got=repr(getattr(cmd, "msg_set", None)))
+        return
     exp = []
     for part in f.split(","):
         vals = []
@@ -598,7 +614,7 @@ CASES.update({
     "inbox_exact": (_inbox_exact, [("a", list(range(18))), ("b", [0, 9, 14]), ("ln", [0, 1, 2]), ("q", [0, 1, 2, 3])]),
     "quoted_unescape": (_quoted_unescape, [("a", list(range(11))), ("b", list(range(11))), ("c", [0, 1, 2, 8]), ("ln", [0, 1, 2, 3])]),
     "literal_count": (_literal_count, [("k", [0, 1, 2, 3, 4]), ("plen", [0, 1, 2, 3, 4]), ("plus", [False, True]), ("a", list(range(6)))]),
-    "msg_set": (_msg_set, [("form", list(range(8))), ("a", [0, 1, 2, 40]), ("b", [0, 1, 3]), ("c", [0, 7]), ("uid", [False, True])]),
+    "msg_set": (_msg_set, [("form", list(range(16))), ("a", [0, 1, 2, 40]), ("b", [0, 1, 3]), ("c", [0, 7]), ("uid", [False, True])]),
     "search_date": (_search_date, [("key", list(range(6))), ("d", list(range(8))), ("m", list(range(15))), ("y", list(range(6))), ("quoted", [False, True]), ("pad", [False, True])]),
     "append_datetime": (_append_datetime, [("d", list(range(5))), ("m", [0, 1, 2]), ("y", [0, 1, 2]), ("hh", [0, 1, 2]), ("mm", [0, 1, 2]), ("ss", [0, 1, 2, 3]), ("zh", [0, 1, 2]), ("zm", [0, 1, 2]), ("neg", [False, True]), ("k", [0, 1])]),
     "fetch_section": (_fetch_section, [("sec", list(range(18))), ("peek", [False, True]), ("part", [False, True]), ("o", [0, 1, 40]), ("n", [0, 2]), ("uid", [False, True])]),
